@@ -489,25 +489,39 @@ def check_property(prop, tier, only=None, jobs=None, use_cache=True, do_replay=T
     if pinfo is None:
         say("property %s has no check (see MANIFEST.json not_applicable)" % prop)
         return 2
-    hs = [h for h in reg["harnesses"] if (prop in h["props"] or prop in h["panic_props"])
-          and (h["tier"] == "quick" or tier == "thorough")]
+    def selected(h):
+        if not (prop in h["props"] or prop in h["panic_props"]):
+            return False
+        if tier == "thorough":
+            return True
+        if h["tier"] != "quick":
+            return False
+        # C05 (poll() is total) is served by the crate panics of nearly every harness; its quick
+        # check takes the station step harnesses (C05 among their labelled properties) and the
+        # cheap totality harnesses marked c05_quick, its thorough check takes all of them
+        if prop == "C05" and prop not in h["props"]:
+            return bool(h.get("c05_quick"))
+        return True
+    hs = [h for h in reg["harnesses"] if selected(h)]
     if only:
         hs = [h for h in hs if h["name"] in only]
     if not hs:
         say("no harness registered for %s" % prop)
         return 2
-    jobs = jobs or int(os.environ.get("VERIF_JOBS", "8"))
+    jobs = jobs or int(os.environ.get("VERIF_JOBS", "10"))
     while not slot_queue.empty():
         slot_queue.get()
     base = int(os.environ.get("VERIF_SLOT_BASE", "0"))
     for i in range(jobs):
         slot_queue.put(base + i)
 
-    # memory-aware scheduling: total weight of concurrently running harnesses <= 8
-    budget = threading.Semaphore(8)
+    # memory-aware scheduling: total weight of concurrently running harnesses <= VERIF_BUDGET
+    # (one weight unit ~ 2.5 GB peak; 62 GB machine)
+    cap = int(os.environ.get("VERIF_BUDGET", "14"))
+    budget = threading.Semaphore(cap)
 
     def job(h):
-        w = min(8, h["weight"])
+        w = min(cap, h["weight"])
         for _ in range(w):
             budget.acquire()
         try:
